@@ -23,8 +23,20 @@ type FramerScenario struct {
 	Body  []int  `json:"body,omitempty"`
 	// At: where the stream is placed: "" after the connection is established (default), "noconnack" instead of the
 	// CONNACK, "withconnack" directly behind the CONNACK in the same segment (before Connect has returned)
-	At    string           `json:"at,omitempty"`
-	Batch []FramerScenario `json:"batch,omitempty"`
+	At string `json:"at,omitempty"`
+	// Pending: a request of this kind ("sub1".."sub3" = Subscribe with 1..3 filters, "unsub", "pub1", "pub2", "ping") is
+	// outstanding -- written, not answered by the broker model -- when Acks are sent: packets built around the request's
+	// own identifier (first byte T, then a remaining length, then identifier + D, then X)
+	Pending string           `json:"pending,omitempty"`
+	Acks    []FramerAck      `json:"acks,omitempty"`
+	Batch   []FramerScenario `json:"batch,omitempty"`
+}
+
+// FramerAck is a packet answering (or pretending to answer) the outstanding request.
+type FramerAck struct {
+	T int   `json:"t"`
+	D int   `json:"d"`
+	X []int `json:"x"`
 }
 
 // FramerMsg is a message as the handler saw it.
@@ -52,6 +64,8 @@ type FramerResult struct {
 	F        int             `json:"f"`
 	Body     []int           `json:"body"`
 	Res      string          `json:"res"`
+	CallRet  bool            `json:"callret"` // Pending: the outstanding call has returned by the end of the run
+	CallCls  string          `json:"callcls"`
 	Batch    []*FramerResult `json:"batch,omitempty"`
 }
 
@@ -96,7 +110,14 @@ func runFramer(sc *FramerScenario) *FramerResult {
 	if res.Bytes == nil {
 		res.Bytes = []int{}
 	}
-	w := netsim.NewWorld(netsim.Plan{})
+	plan := netsim.Plan{}
+	if sc.Pending != "" {
+		// the broker model does not answer the outstanding request: the scenario's Acks do
+		for _, pk := range []string{"SUBSCRIBE", "UNSUBSCRIBE", "PUBLISH", "PINGREQ"} {
+			plan.Writes = append(plan.Writes, netsim.FaultRule{P: pk, N: 1, O: "dropAck"})
+		}
+	}
+	w := netsim.NewWorld(plan)
 	w.AutoRelease = false
 	ctx, cancel := context.WithTimeout(context.Background(), 5*time.Second)
 	defer cancel()
@@ -157,6 +178,48 @@ func runFramer(sc *FramerScenario) *FramerResult {
 		return res
 	}
 	t := w.Conn(1)
+	callRet := make(chan error, 1)
+	if sc.Pending != "" {
+		pk := map[string]string{"sub1": "SUBSCRIBE", "sub2": "SUBSCRIBE", "sub3": "SUBSCRIBE", "unsub": "UNSUBSCRIBE", "pub1": "PUBLISH", "pub2": "PUBLISH", "ping": "PINGREQ"}[sc.Pending]
+		go func() {
+			var err error
+			switch sc.Pending {
+			case "sub1", "sub2", "sub3":
+				subs := []mqtt.Subscription{{Topic: "p/1", QoS: mqtt.QoS1}, {Topic: "p/2", QoS: mqtt.QoS2}, {Topic: "p/3", QoS: mqtt.QoS0}}[:int(sc.Pending[3]-'0')]
+				_, err = cli.Subscribe(ctx, subs...)
+			case "unsub":
+				err = cli.Unsubscribe(ctx, "p/1")
+			case "pub1":
+				err = cli.Publish(ctx, &mqtt.Message{Topic: "p", QoS: mqtt.QoS1, Payload: []byte("x")})
+			case "pub2":
+				err = cli.Publish(ctx, &mqtt.Message{Topic: "p", QoS: mqtt.QoS2, Payload: []byte("x")})
+			case "ping":
+				err = cli.Ping(ctx)
+			}
+			callRet <- err
+		}()
+		id := -1
+		waitFor(func() bool {
+			for _, e := range w.Rec.Snapshot() {
+				if e["e"] == "Write" && e["p"] == pk {
+					id = e["id"].(int)
+					return true
+				}
+			}
+			return false
+		}, 2*time.Second)
+		if id < 0 {
+			res.Res = "outstanding request not written"
+			return res
+		}
+		for _, a := range sc.Acks {
+			x := (id + a.D) & 0xFFFF
+			body := append([]byte{byte(x >> 8), byte(x)}, bytesOf(a.X)...)
+			stream = append(stream, byte(a.T), byte(len(body)))
+			stream = append(stream, body...)
+		}
+		res.Bytes = ints(stream)
+	}
 	if len(stream) == 0 {
 		// already delivered
 	} else if sc.Split > 0 {
@@ -203,6 +266,15 @@ func runFramer(sc *FramerScenario) *FramerResult {
 		}
 	}
 	time.Sleep(200 * time.Microsecond)
+	if sc.Pending != "" {
+		// the connection has ended by now (by itself or by the peer close above): the outstanding call returns
+		select {
+		case err := <-callRet:
+			res.CallRet = true
+			res.CallCls = netsim.ErrClass(err)
+		case <-time.After(2 * time.Second):
+		}
+	}
 	e := cli.Err()
 	res.ErrNil = e == nil
 	res.Cls = netsim.ErrClass(e)
